@@ -71,12 +71,13 @@ Qed.
 (* when the chain is over (third try done, or nothing missing) the instance is no longer
    pending: a later ServiceFound of it starts a new chain (followup_first applies again) *)
 Theorem followup_over_allows_new_round s now inst n :
-  retry_guard n max_try = false \/ fst (query_unresolved (s_cache s) inst) = false ->
+  (n <? 3) = false \/ fst (query_unresolved (s_cache s) inst) = false ->
   mem inst (s_pending (fst (exec_resolve s now inst n))) = false.
 Proof.
   intros H. unfold exec_resolve. destruct (query_unresolved (s_cache s) inst) as [sent o]. simpl in H.
   assert (Hc : sent && retry_guard n max_try = false).
-  { destruct H as [H|H]; rewrite H; [apply andb_false_r|reflexivity]. }
+  { destruct (followup_pinned n) as (_ & _ & _ & _ & _ & Hg & _). rewrite Hg.
+    destruct H as [H|H]; rewrite H; [apply andb_false_r|reflexivity]. }
   rewrite Hc. simpl. apply mem_set_remove.
 Qed.
 
